@@ -1,6 +1,7 @@
 import AslModel.Xml
 import AslProofs.Xml
 import AslProofs.XmlRt
+import AslProofs.XmlIds
 /-!
 # C07 — XML decoding is total and safe; encode then decode preserves the tree
 
@@ -81,6 +82,12 @@ theorem xml_parent_links (x : Bytes) (n : Node) (h : decode x = .node n) :
     simp only [children] at hc
     simp only [linksOK] at this
     exact (kidsOK_mem id cs this c hc).1
+
+/-- the identities of the nodes of a returned tree (`ids`: the node, then its descendants in document
+    order) are pairwise distinct — so "parent = identity of the container" in `xml_parent_links` names
+    exactly one node of the tree -/
+theorem xml_node_ids_unique (x : Bytes) (n : Node) (h : decode x = .node n) : (ids n).Nodup :=
+  decode_ids true x n h
 
 /-- the hypotheses are satisfiable: `<a><b/>t</a>` decodes to an element with two children -/
 example : ∃ n, decode [60, 97, 62, 60, 98, 47, 62, 116, 60, 47, 97, 62] = .node n ∧ (children n).length = 2 := by
